@@ -88,14 +88,6 @@ func (p plcase) params() (allowed, retAfter int) {
 	return 0, n
 }
 
-// start: how the strategy calls its members (the model's initial state): side by side / one after the other
-func (p plcase) start() string {
-	if p.Strat == "one" {
-		return "seq"
-	}
-	return "par"
-}
-
 // ---- scripted devices
 
 type scriptDev struct {
@@ -497,8 +489,9 @@ func topFrames(g gor) string {
 }
 
 func (p plcase) line(o plobs) string {
-	allowed, retAfter := p.params()
-	return fmt.Sprintf("pipe %s %d %d %d %s %s", p.Trait, p.N, allowed, retAfter, p.start(), strings.Join(o.Steps, ","))
+	// the model's parameters (when Execute cancels / returns) are computed by the driver from the strategy
+	// (Lean: execParams, proved against the thread model of exec.go); params() below serves the Go oracle only
+	return fmt.Sprintf("pipe %s %d %s %s", p.Trait, p.N, p.Strat, strings.Join(o.Steps, ","))
 }
 
 func pipelineMonitor(mon *lib.Monitor, p plcase, o plobs) {
